@@ -59,3 +59,53 @@ Theorem c13_render_with_context :
 Proof. exact SimRel.c13_render_with_context. Qed.
 Print Assumptions c13_render_with_context.
 
+
+(* ---------- DOM level (Proofs/DomRel.v): documents that differ only in the whitespace of their text nodes render identically ---------- *)
+From H2T Require Import Sub Css Dom Render Api CssParse Proofs.WrapInv Proofs.RenderWidth Proofs.Conserve Proofs.Footnotes Proofs.RenderConserve Proofs.OptionRel Proofs.Compose Proofs.FragStream Proofs.SimRel Proofs.Prune Proofs.DomRel.
+Theorem c13_dom_trees :
+  forall (inline_styles : list (text * text) -> res (list styledecl))
+         (doc_rules : list node -> res (list ruleset)) (c : config) (doc1 doc2 : list node),
+       dom_ws_equiv doc1 doc2 ->
+       effective_sd doc_rules c doc1 = effective_sd doc_rules c doc2 ->
+       rmap NT (to_render_tree inline_styles doc_rules c doc1) =
+       rmap NT (to_render_tree inline_styles doc_rules c doc2).
+Proof. exact DomRel.c13_dom_trees. Qed.
+Print Assumptions c13_dom_trees.
+
+Theorem c13_dom_ws_equiv :
+  forall (inline_styles : list (text * text) -> res (list styledecl))
+         (doc_rules : list node -> res (list ruleset)) (c : config) (doc1 doc2 : list node) 
+         (t1 t2 : rnode),
+       dom_ws_equiv doc1 doc2 ->
+       effective_sd doc_rules c doc1 = effective_sd doc_rules c doc2 ->
+       to_render_tree inline_styles doc_rules c doc1 = Ok t1 ->
+       to_render_tree inline_styles doc_rules c doc2 = Ok t2 -> ws_equiv t1 t2.
+Proof. exact DomRel.c13_dom_ws_equiv. Qed.
+Print Assumptions c13_dom_ws_equiv.
+
+Theorem c13_dom_string :
+  forall (inline_styles : list (text * text) -> res (list styledecl))
+         (doc_rules : list node -> res (list ruleset)) (c : config) (doc1 doc2 : list node) 
+         (w : N),
+       dom_ws_equiv doc1 doc2 ->
+       effective_sd doc_rules c doc1 = effective_sd doc_rules c doc2 ->
+       doc_tree_ok inline_styles doc_rules c doc1 = true ->
+       doc_tree_ok inline_styles doc_rules c doc2 = true ->
+       string_from_read inline_styles doc_rules c doc1 w = string_from_read inline_styles doc_rules c doc2 w /\
+       lines_from_read inline_styles doc_rules c doc1 w = lines_from_read inline_styles doc_rules c doc2 w.
+Proof. exact DomRel.c13_dom_string. Qed.
+Print Assumptions c13_dom_string.
+
+Theorem c13_dom_nodoccss :
+  forall (inline_styles : list (text * text) -> res (list styledecl))
+         (doc_rules : list node -> res (list ruleset)) (c : config) (doc1 doc2 : list node) 
+         (w : N),
+       c_use_doc_css c = false ->
+       dom_ws_equiv doc1 doc2 ->
+       doc_tree_ok inline_styles doc_rules c doc1 = true ->
+       doc_tree_ok inline_styles doc_rules c doc2 = true ->
+       string_from_read inline_styles doc_rules c doc1 w = string_from_read inline_styles doc_rules c doc2 w /\
+       lines_from_read inline_styles doc_rules c doc1 w = lines_from_read inline_styles doc_rules c doc2 w.
+Proof. exact DomRel.c13_dom_nodoccss. Qed.
+Print Assumptions c13_dom_nodoccss.
+
